@@ -1,3 +1,5 @@
+//go:build kvh_all || kvh_c17 || kvh_c18
+
 package all
 
 import _ "kvh/engines/sched"
